@@ -18,7 +18,7 @@ ANCHOR_FILES = ["sktime/forecasting/model_selection/_tune.py", "sktime/forecasti
 REQUIRED_REACH = ["_tune.py:BaseGridSearch.fit", "_tune.py:ForecastingGridSearchCV._run_search",
                   "_tune.py:ForecastingRandomizedSearchCV._run_search", "_tune.py:BaseGridSearch.check_is_fitted",
                   "_tune.py:BaseGridSearch.predict", "_functions.py:evaluate"]
-REQUIRED_MONITORS = ["rows", "best.direction", "best.bookkeeping", "refit.delegation", "norefit.guard", "same-splits"]
+REQUIRED_MONITORS = ["rows", "rows.honest", "best.direction", "best.bookkeeping", "refit.delegation", "norefit.guard", "same-splits"]
 NOT_COVERED = ["process-based joblib backends"]
 ASSUMPTIONS = ["ties in the mean score: any tied candidate is accepted as best"]
 JOBS = {"quick": 4, "thorough": 16}
@@ -128,6 +128,28 @@ def run_case(case, ctx):
                 ctx.check("rows", _eq(res[col].iloc[i], ref), "tune:row-differs-from-independent-evaluate",
                           "mean CV score of candidate %d differs from an independent evaluate() run" % i, got=float(res[col].iloc[i]), expected=ref,
                           params=params)
+                # ... and is the candidate's mean CV score: fold loop written out (fit / update on the split's training window, predict the
+                # split's test points, metric(y_true, y_pred)), independent of evaluate()
+                from sktime.forecasting.base import ForecastingHorizon
+                fold_scores, g = [], None
+                try:
+                    for k, (tr, te) in enumerate(zoo.build_cv(case["cv"]).split(y)):
+                        y_tr, y_te = y.iloc[tr], y.iloc[te]
+                        fha = ForecastingHorizon(y_te.index, is_relative=False)
+                        if k == 0 or strategy == "refit":
+                            g = clone(_build(spec, lid2)).set_params(**params)
+                            g.fit(y_tr.copy(), fh=fha)
+                        else:
+                            g.update(y_tr.copy())
+                        fold_scores.append(float(metric(y_te, g.predict(fha))))
+                except Exception as e:  # noqa
+                    ctx.tag("honest-fold-loop-failed:" + type(e).__name__)
+                    fold_scores = None
+                if fold_scores:
+                    ctx.check("rows.honest", _eq(res[col].iloc[i], float(np.mean(fold_scores))), "tune:row-differs-from-honest-fold-computation:%s" %
+                              ("asymmetric-metric" if case["scoring"] in ("mape", "asym", "asym_fn", "neg_asym") else "metric"),
+                              "mean CV score of candidate %d is not the mean over the folds of metric(y_true, y_pred)" % i, got=float(res[col].iloc[i]),
+                              expected=float(np.mean(fold_scores)), params=params, metric=metric.name)
         finally:
             spies.drop(lid2)
         # ---- direction / bookkeeping ----------------------------------------------------------------
